@@ -17,7 +17,6 @@ CLASS_FINDING = {
     'respell': 'C07-advertised-version-respelled',
     'pep-eq': 'C07-pep440-operator-rewritten',
     'gha-quoted-uses': 'C05-quoted-uses-range-shifted',
-    'gomod-path-contains-version': 'C05-gomod-version-text-found-in-module-path',
 }
 TOKEN_CLASSES = {'alias-token', 'json-escape', 'toml-literal-string', 'pep508-spaced-spec', 'pep508-no-spec', 'pep508-marker-operator', 'jsr-subpath'}
 SINGLE = re.compile(r'^(>=|<=|>|<|=|\^|~)?v?(\d+)(\.(\d+))?(\.(\d+))?(-([0-9A-Za-z.-]+))?(\+[0-9A-Za-z.-]+)?$')
@@ -389,7 +388,7 @@ def run(tier, seed):
             if not reported:
                 continue                                  # the dependency is not (or not under this name) reported by the parser: C04's business
             spec = ent['spec']
-            known_cls = (cls & TOKEN_CLASSES) or (cls & {'utf16', 'gha-quoted-uses', 'gomod-path-contains-version'}) or d.fmt == 'pyproject_toml'
+            known_cls = (cls & TOKEN_CLASSES) or (cls & {'utf16', 'gha-quoted-uses'}) or d.fmt == 'pyproject_toml'
             vs = cache.get(ent['name'], [])
             want = ref_targets(spec, vs) if SINGLE.match(spec or '') else None
             if not on_spec:
@@ -452,7 +451,7 @@ def run(tier, seed):
         why = None
         if cls & TOKEN_CLASSES or d.fmt == 'pyproject_toml':
             why = 'pep-eq' if d.fmt == 'pyproject_toml' and (ent.get('raw_spec') or '').lstrip().startswith(('==', '~=', '!=')) else 'token'
-        for c2 in ('utf16', 'gha-quoted-uses', 'gomod-path-contains-version'):
+        for c2 in ('utf16', 'gha-quoted-uses'):
             if c2 in cls:
                 why = c2
         if why:
